@@ -25,6 +25,7 @@ import (
 	"sort"
 	"sync"
 	"syscall"
+	"time"
 
 	"github.com/semihalev/sdns/zzverif/vlib"
 )
@@ -39,12 +40,21 @@ func main() {
 	if err != nil {
 		r.Fatalf("mkdtemp: %v", err)
 	}
-	cleanup := func() { _ = os.RemoveAll(root) }
+	rn := &runner{r: r, root: root}
+	cleanup := func() { rn.killAll(); _ = os.RemoveAll(root) }
 	sigc := make(chan os.Signal, 1)
-	signal.Notify(sigc, syscall.SIGINT, syscall.SIGTERM)
+	signal.Notify(sigc, syscall.SIGINT, syscall.SIGTERM, syscall.SIGQUIT)
 	go func() {
-		<-sigc
+		sig := <-sigc
 		cleanup()
+		time.Sleep(300 * time.Millisecond) // children being reaped may still hold files
+		cleanup()
+		if sig == syscall.SIGQUIT {
+			// the check wrapper's watchdog: leave the goroutine dump to the runtime
+			signal.Reset(syscall.SIGQUIT)
+			_ = syscall.Kill(os.Getpid(), syscall.SIGQUIT)
+			select {}
+		}
 		os.Exit(2)
 	}()
 	self, err := os.Executable()
@@ -56,7 +66,7 @@ func main() {
 		cleanup()
 		r.Fatalf("strace not found: %v", err)
 	}
-	rn := &runner{r: r, root: root, bin: self}
+	rn.bin = self
 
 	r.Assume("a refresh killed before it returned is not an accepted refresh; a refresh whose two file replacements both failed adopted nothing and is not an accepted refresh either")
 	r.Assume("a revocation counts as accepted-and-recorded once one of the two records is on disk; if neither could be written the only demand is the fail-closed clear in that process")
